@@ -37,7 +37,9 @@ ASSUMPTIONS = ['for invalid-expression faults the offending substring is the exp
                'blanks excluded); for language errors the token must be an aligned substring lying inside the offending '
                'attribute or tag']
 
-BADS = ['bad7 +', '1 +', '(a', 'a b', 'x[', 'é +', 'lambda', 'a ++ ', "d['k'", 'not']
+BADS = ['bad7 +', '1 +', '(a', 'a b', 'x[', 'é +', 'lambda', 'a ++ ', "d['k'", 'not',
+        # invalid expressions spanning lines: the token must still be the source substring
+        '(a\n   b', '1 +\n  2 +', 'a\n b']
 GOODS = ['1', "'s'", 'a', "';;'", "'&amp;'", "'&lt;b&gt;'", 'x or 1', "d['k']", "'é'", "a ;; b" if False else "'x;;y'", '(1, 2)',
          "len('ab')"]
 
